@@ -1089,8 +1089,14 @@ func (ex *Exec) protoGetter(st *State, c *ssa.CallCommon, args []Term) (Term, bo
 		return Term{}, false
 	}
 	fn := c.StaticCallee()
-	if fn == nil || len(fn.Blocks) > 0 || !strings.HasPrefix(fn.Name(), "Get") || len(args) != 1 {
+	if fn == nil || !strings.HasPrefix(fn.Name(), "Get") || len(args) != 1 {
 		return Term{}, false
+	}
+	if len(fn.Blocks) > 0 {
+		// a getter of the package under analysis: only the generated ones (*.pb.go)
+		if !fn.Pos().IsValid() || !strings.HasSuffix(ex.w.Prog.Fset.Position(fn.Pos()).Filename, ".pb.go") {
+			return Term{}, false
+		}
 	}
 	sig := fn.Signature
 	if sig.Recv() == nil || sig.Params().Len() != 0 || sig.Results().Len() != 1 {
